@@ -35,6 +35,7 @@ type c19Doc struct {
 	S     string
 	U     float64 // unique in the indexed collection
 	Inner string
+	Zone  float64 // inner.geo.zone: a path with three elements (the deepest the engine allows by default)
 	Revs  int
 }
 
@@ -71,13 +72,14 @@ func c19Body(r *simcore.Run) {
 		{Name: "s", Type: protomodel.FieldType_STRING},
 		{Name: "u", Type: protomodel.FieldType_DOUBLE},
 		{Name: "inner.tag", Type: protomodel.FieldType_STRING},
+		{Name: "inner.geo.zone", Type: protomodel.FieldType_DOUBLE},
 	}
 	must := func(err error, what string) {
 		if err != nil {
 			r.Violation("ddl", "", "%s failed: %v", what, err)
 		}
 	}
-	must(eng.CreateCollection(ctx, "admin", "indexed", "_id", fields, []*protomodel.Index{{Fields: []string{"n"}}, {Fields: []string{"s"}}, {Fields: []string{"u"}, IsUnique: true}}), "CreateCollection(indexed)")
+	must(eng.CreateCollection(ctx, "admin", "indexed", "_id", fields, []*protomodel.Index{{Fields: []string{"n"}}, {Fields: []string{"s"}}, {Fields: []string{"u"}, IsUnique: true}, {Fields: []string{"inner.geo.zone"}}}), "CreateCollection(indexed)")
 	must(eng.CreateCollection(ctx, "admin", "plain", "_id", fields, nil), "CreateCollection(plain)")
 	r.Sched.SetSwitchPct(r.Pick(100, 50, 20))
 
@@ -91,6 +93,7 @@ func c19Body(r *simcore.Run) {
 			"u": structpb.NewNumberValue(d.U),
 			"inner": structpb.NewStructValue(&structpb.Struct{Fields: map[string]*structpb.Value{
 				"tag":   structpb.NewStringValue(d.Inner),
+				"geo":   structpb.NewStructValue(&structpb.Struct{Fields: map[string]*structpb.Value{"zone": structpb.NewNumberValue(d.Zone), "name": structpb.NewStringValue("z")}}),
 				"extra": structpb.NewListValue(&structpb.ListValue{Values: []*structpb.Value{structpb.NewNumberValue(1), structpb.NewStringValue("ü✓")}}),
 			}}),
 			"free": structpb.NewBoolValue(true),
@@ -115,7 +118,7 @@ func c19Body(r *simcore.Run) {
 			switch w := r.Intn(10); {
 			case w < 6 || len(keys) == 0:
 				seq++
-				d := &c19Doc{ID: fmt.Sprintf("d%d", seq), HasN: r.Pct(80), N: float64(r.Intn(5)), S: []string{"alpha", "beta", "gamma", "Ünï"}[r.Intn(4)], U: float64(seq), Inner: []string{"x", "y"}[r.Intn(2)], Revs: 1}
+				d := &c19Doc{ID: fmt.Sprintf("d%d", seq), HasN: r.Pct(80), N: float64(r.Intn(5)), S: []string{"alpha", "beta", "gamma", "Ünï"}[r.Intn(4)], U: float64(seq), Inner: []string{"x", "y"}[r.Intn(2)], Zone: float64(r.Intn(4)), Revs: 1}
 				if r.Pct(15) && len(usedU) > 0 {
 					// a duplicate value for the unique field: must be refused by the indexed collection
 					// (the smallest used value: ranging over the map would pick at random)
@@ -340,6 +343,8 @@ func c19Body(r *simcore.Run) {
 			{fmt.Sprintf("n >= %v", k), []*protomodel.QueryExpression{{FieldComparisons: []*protomodel.FieldComparison{cmp("n", protomodel.ComparisonOperator_GE, structpb.NewNumberValue(k))}}}, func(d *c19Doc) bool { return d.HasN && d.N >= k }},
 			{fmt.Sprintf("n < %v AND s = %s", k, sv), []*protomodel.QueryExpression{{FieldComparisons: []*protomodel.FieldComparison{cmp("n", protomodel.ComparisonOperator_LT, structpb.NewNumberValue(k)), cmp("s", protomodel.ComparisonOperator_EQ, structpb.NewStringValue(sv))}}}, func(d *c19Doc) bool { return d.HasN && d.N < k && d.S == sv }},
 			{fmt.Sprintf("s = %s OR inner.tag = x", sv), []*protomodel.QueryExpression{{FieldComparisons: []*protomodel.FieldComparison{cmp("s", protomodel.ComparisonOperator_EQ, structpb.NewStringValue(sv))}}, {FieldComparisons: []*protomodel.FieldComparison{cmp("inner.tag", protomodel.ComparisonOperator_EQ, structpb.NewStringValue("x"))}}}, func(d *c19Doc) bool { return d.S == sv || d.Inner == "x" }},
+			{fmt.Sprintf("inner.geo.zone = %v", k), []*protomodel.QueryExpression{{FieldComparisons: []*protomodel.FieldComparison{cmp("inner.geo.zone", protomodel.ComparisonOperator_EQ, structpb.NewNumberValue(k))}}}, func(d *c19Doc) bool { return d.Zone == k }},
+			{fmt.Sprintf("inner.tag = y OR inner.geo.zone >= %v OR s = %s", k, sv), []*protomodel.QueryExpression{{FieldComparisons: []*protomodel.FieldComparison{cmp("inner.tag", protomodel.ComparisonOperator_EQ, structpb.NewStringValue("y"))}}, {FieldComparisons: []*protomodel.FieldComparison{cmp("inner.geo.zone", protomodel.ComparisonOperator_GE, structpb.NewNumberValue(k))}}, {FieldComparisons: []*protomodel.FieldComparison{cmp("s", protomodel.ComparisonOperator_EQ, structpb.NewStringValue(sv))}}}, func(d *c19Doc) bool { return d.Inner == "y" || d.Zone >= k || d.S == sv }},
 			{fmt.Sprintf("s != %s", sv), []*protomodel.QueryExpression{{FieldComparisons: []*protomodel.FieldComparison{cmp("s", protomodel.ComparisonOperator_NE, structpb.NewStringValue(sv))}}}, func(d *c19Doc) bool { return d.S != sv }},
 		}
 		for _, c := range cases {
